@@ -23,7 +23,7 @@ try:
         out["pytest_tail"] = r.stdout.strip().split("\n")[-1][:120]
         alarms = {}
         for p in props:
-            r = sh(["/verif/check", p, "--tier", "quick"], env=dict(os.environ, CCT_REPO=wt), timeout=1800)
+            r = sh([os.path.join(os.path.dirname(os.path.dirname(os.path.abspath(__file__))), "check"), p, "--tier", "quick"], env=dict(os.environ, CCT_REPO=wt), timeout=1800)
             if r.returncode != 0:
                 rp = None
                 for ln in r.stdout.split("\n"):
